@@ -26,7 +26,8 @@ theorem oneLive_of_invB {s : State} (h : InvB s) : OneLive s := by
   · rcases vp with vp | vp <;> simp_all
   · rw [hvi] at hvj; exact Option.some.inj hvj
 
-theorem handedOut_of_invB {s : State} (h : InvB s) : HandedOutLoaded s := h.ret
+theorem handedOut_of_invB {s : State} (h : InvB s) : HandedOutLoaded s :=
+  fun t ht i => ⟨(h.thr t ht).ret_val i, fun l => (h.thr t ht).ret_objs l i⟩
 
 theorem noDoubleClose_of_invB {s : State} (h : InvB s) : NoDoubleClose s := by
   intro i hi
@@ -44,7 +45,17 @@ theorem noneOpen_of_inv {s : State} (hb : InvB s) (hd : InvD s) : NoneOpenAfterC
     have o := (hb.ins i hi).owned hal
     exact absurd o.2.1 (hm _ o.1)
 
-theorem removedNotReturned_of_invC {s : State} (h : InvC s) : RemovedNotReturned s := h.ret_fresh
+theorem removeSameOnlyTarget_of_inv {s : State} (ha : InvA s) (hb : InvB s) : RemoveSameOnlyTarget s := by
+  intro t ht id tgt r i hop hpc
+  have v := (hb.thr t ht).same_target id tgt r hop (by rw [hpc]; rfl)
+  have a := (ha.thr t ht).2
+  rw [hpc] at a
+  simp only at a
+  rw [a.2.2.2] at v
+  exact Option.some.inj v
+
+theorem removedNotReturned_of_invC {s : State} (h : InvC s) : RemovedNotReturned s :=
+  fun t ht i => ⟨(h.thr t ht).ret_val i, fun l => (h.thr t ht).ret_objs l i⟩
 
 /-! ### enabledness and deadlock freedom -/
 
@@ -217,6 +228,6 @@ theorem invA_init : InvA init := by
   · rfl
 
 theorem inv_init : Inv init := by
-  refine ⟨invA_init, ⟨?_, ?_, ?_⟩, ⟨?_, ?_, ?_⟩, ⟨?_, ?_⟩⟩ <;> intros <;> simp_all [init]
+  refine ⟨invA_init, ⟨?_, ?_, ?_⟩, ⟨?_⟩, ⟨?_, ?_⟩⟩ <;> intros <;> simp_all [init]
 
 end AnySync.OCache
